@@ -118,7 +118,7 @@ Definition numeric_q (q : simple) : bool := contains k_number [q_type q] || cont
 
 (* one level of a definition: what does not depend on the value *)
 Definition qlocal (rf : str) (q : simple) : Prop :=
-  q_nullable q = false /\ Forall jd (q_enum q) /\ (q_pattern q = 0 \/ o_re_ok OR (q_pattern q) = true) /\
+  q_nullable q = false /\ Forall (AgreementData.jd fin true true) (q_enum q) /\ (q_pattern q = 0 \/ o_re_ok OR (q_pattern q) = true) /\
   (* bounds and factor are numbers of the declared type and format (elsewhere: finding constraint-outside-declared-type) *)
   (forall m, q_maximum q = Some m -> fin m /\ range_bad N (VFlt false m) (q_type q) (q_format q) = false) /\
   (forall m, q_minimum q = Some m -> fin m /\ range_bad N (VFlt false m) (q_type q) (q_format q) = false) /\
@@ -169,7 +169,7 @@ Proof.
 Qed.
 
 (* ---- enum ---- *)
-Lemma enum_q_agree p q d : jd d -> Forall jd (q_enum q) ->
+Lemma enum_q_agree p q d : jd d -> Forall (AgreementData.jd fin true true) (q_enum q) ->
   (match common_validate_q N p q d with None => true | Some r => r_valid r end) = enum_ok N (sch_of1 q) d.
 Proof. intros Hd He. exact (enum_agree fin false true N p (sch_of1 q) d Hd He). Qed.
 
